@@ -1,0 +1,30 @@
+//go:build verif
+
+package verifapi
+
+import (
+	"github.com/WICG/webpackage/go/internal/cbor"
+	"github.com/WICG/webpackage/go/internal/signingalgorithm"
+)
+
+type (
+	CborEncoder         = cbor.Encoder
+	CborDecoder         = cbor.Decoder
+	CborMapEntryEncoder = cbor.MapEntryEncoder
+	SigningAlgorithm    = signingalgorithm.SigningAlgorithm
+	Verifier            = signingalgorithm.Verifier
+)
+
+var (
+	NewCborEncoder       = cbor.NewEncoder
+	NewCborDecoder       = cbor.NewDecoder
+	NewCborMapEntry      = cbor.NewMapEntry
+	GenerateCborMapEntry = cbor.GenerateMapEntry
+	CborDeterministic    = cbor.Deterministic
+
+	SigningAlgorithmForPrivateKey = signingalgorithm.SigningAlgorithmForPrivateKey
+	VerifierForPublicKey          = signingalgorithm.VerifierForPublicKey
+	ParseCertificates             = signingalgorithm.ParseCertificates
+	ParsePrivateKey               = signingalgorithm.ParsePrivateKey
+	ParsePublicKey                = signingalgorithm.ParsePublicKey
+)
